@@ -119,19 +119,21 @@ func Intersect(ctx *expr.Context, input system.Collection, args ...expr.Expressi
 	if err != nil {
 		return nil, err
 	}
-	var result system.Collection
-	for _, i := range input {
-		for _, c := range argValues {
-			if checkEquality(i, c) {
-				v, _ := system.From(c)
-				result = append(result, v)
+	// Keep the input's own items that equal some item of the other collection,
+	// once per equality class (complex elements have no System value, and 1.0 and
+	// 1.00 are equal although they differ as map keys).
+	result := system.Collection{}
+	for _, item := range input {
+		if containsEqual(argValues, item) && !containsEqual(result, item) {
+			// Primitives are returned as System values, as before.
+			if value, err := system.From(item); err == nil {
+				result = append(result, value)
+			} else {
+				result = append(result, item)
 			}
 		}
 	}
-	if len(result) == 0 {
-		return system.Collection{}, nil
-	}
-	return removeDuplicates(result), nil
+	return result, nil
 }
 
 // Exclude returns the set of elements that are not in the other collection.
@@ -200,6 +202,16 @@ func IsDistinct(ctx *expr.Context, input system.Collection, args ...expr.Express
 		return nil, err
 	}
 	return system.Collection{system.Boolean(len(got) == len(input))}, nil
+}
+
+// containsEqual reports whether the collection holds an item equal to value.
+func containsEqual(collection system.Collection, value any) bool {
+	for _, item := range collection {
+		if checkEquality(item, value) {
+			return true
+		}
+	}
+	return false
 }
 
 func removeDuplicates(collection system.Collection) system.Collection {
